@@ -206,6 +206,9 @@ func c15Case(r *obs.Run, i int) {
 		if maxRate > 0.03 {
 			maxRate = 0.03
 		}
+		if maxRate < 0 {
+			maxRate = 0
+		}
 		p := c15Plant{A0: a0, A1: a0 + L, B0: b0, Reverse: rng.Intn(2) == 0}
 		w := append([]byte(nil), T[a0:a0+L]...)
 		if block != "" {
